@@ -117,11 +117,22 @@ func natFrandUint64n(fr *frame, fn *ssa.Function, args []value) value {
 	return v
 }
 
+// Entropy128/256: arbitrary bytes; two draws are assumed to differ (the
+// chance that they do not is 2^-128 or less).
 func natFrandEntropy(n int) nativeFn {
 	return func(fr *frame, fn *ssa.Function, args []value) value {
+		i := fr.i
 		out := make(array, n)
 		for k := range out {
-			out[k] = fr.i.nondet("frand", types.Uint8)
+			out[k] = i.nondet("frand", types.Uint8)
+		}
+		if t := i.bytesTerm([]value(out)); t != nil && !t.IsConst() {
+			for _, prev := range i.path.entropy {
+				if prev.w == t.w {
+					i.assume(i.tt.Not(i.tt.Eq(prev, t)))
+				}
+			}
+			i.path.entropy = append(i.path.entropy, t)
 		}
 		return out
 	}
